@@ -69,7 +69,7 @@ class C10(Machine):
         cfg = {"case_sensitive": rng.random() < 0.5, "initial_labels": [rng.choice(LABELS) for _ in range(n0)]}
         ops = ["add_new", "add_new", "add_member", "add_known", "new_taxon", "new_taxa", "add_taxa", "require", "require",
                "remove", "remove", "remove_nonmember", "remove_label", "discard_label", "delitem", "sort", "reverse", "clear",
-               "relabel", "relabel", "toggle_mutable", "copy", "deepcopy", "construct", "clone0", "clone1", "clone2", "query", "query"]
+               "relabel", "relabel", "toggle_mutable", "read_translate", "copy", "deepcopy", "construct", "clone0", "clone1", "clone2", "query", "query"]
         steps = []
         for _ in range(rng.randint(5, 150 if tier == "thorough" else 60)):
             op = rng.choice(ops)
@@ -271,6 +271,24 @@ class C10(Machine):
         elif op == "toggle_mutable":
             ns.is_mutable = not ns.is_mutable
             model.mutable = not model.mutable
+        elif op == "read_translate":
+            # a reader filling the namespace: a TREES block with TRANSLATE and no TAXA block names two labels nobody holds
+            self.nread = getattr(self, "nread", 0) + 1
+            new = ["read%da" % self.nread, "read%db" % self.nread]
+            doc = "#NEXUS\nBEGIN TREES;\n  TRANSLATE 1 %s, 2 %s;\n  TREE t = (1,2);\nEND;\n" % tuple(new)
+            kw = {"case_sensitive_taxon_labels": True} if model.cs else {}
+            if not model.mutable:
+                self._expect_raise(rec, op, (dperror.DataParseError, dperror.ImmutableTaxonNamespaceError),
+                                   lambda: dendropy.Tree.get(data=doc, schema="nexus", taxon_namespace=ns, **kw))
+                return
+            dendropy.Tree.get(data=doc, schema="nexus", taxon_namespace=ns, **kw)
+            for lab in new:
+                m = [t for t in ns if t.label == lab and id(t) not in self.uid_of]
+                if len(m) != 1:
+                    rec.violation("WRONG_RESULT", {"op": op, "what": "members_created"},
+                                  "reading a TRANSLATE label nobody holds created %d members for it" % len(m))
+                    raise StopRun()
+                model.admit(self._register(m[0], lab))
         elif op in ("copy", "construct", "clone0"):
             if len(self.spaces) >= 4:
                 return
